@@ -3,7 +3,7 @@
 # Applies a behaviour-preserving patch to a scratch worktree of /repo and runs the given property checks there.
 # Every check must exit 0 without a VIOLATION line (a false alarm otherwise).  Prints one line per check.
 set -u
-PATCH=$1; shift
+PATCH=$(cd "$(dirname "$1")" && pwd)/$(basename "$1"); shift
 export GOFLAGS=-mod=mod GOPROXY=off GOSUMDB=off GOTOOLCHAIN=local
 S=$(mktemp -d /tmp/pass.XXXXXX)
 git -C /repo worktree add -q --detach "$S" HEAD || exit 2
